@@ -13,7 +13,7 @@ import os
 import sys
 
 OUT = sys.argv[1] if len(sys.argv) > 1 else "/verif/engines/e2e/app"
-REPO = os.environ.get("VERIF_REPO", "/repo")
+REPO = os.environ.get("VERIF_E2E_REPO", "/repo")
 
 TYPES = ["T0", "T1", "T2"]
 FLAVOURS = ["P", "K", "Y"]  # plain, Clone, Copy
@@ -516,6 +516,15 @@ def main():
     gen_fallbacks()
     gen_routes()
     gen_plants()
+    # plug-ins: engines/e2e/gen_app_extra_*.py, each exposing gen(w, catalog) (see EXTENDING.md)
+    import glob
+    import importlib.util
+    here = os.path.dirname(os.path.abspath(__file__))
+    for plug in sorted(glob.glob(f"{here}/gen_app_extra_*.py")):
+        spec = importlib.util.spec_from_file_location(os.path.basename(plug)[:-3], plug)
+        mod = importlib.util.module_from_spec(spec)
+        spec.loader.exec_module(mod)
+        mod.gen(w, catalog)
     lib = LIB_HEAD + "\n".join(src) + "\n"
     cargo = f'''[package]
 name = "verif_app"
